@@ -40,7 +40,7 @@ class IntegerNode(BaseNode, SelectNode):
     def set_value(self, value=None):
         """ Set value using value_raw or arbitrary value
         """
-        if value is None and self.value_raw:
+        if value is None and self._has_raw():
             self.value = IntegerType(self.cast_value(), self.units_raw, precision=self.precision, unsigned=self.unsigned)
         elif value is not None:
             self.value = IntegerType(value, self.units_raw, precision=self.precision, unsigned=self.unsigned)
